@@ -199,6 +199,41 @@ def work(exes, start, n, owner):
     return part.dump()
 
 
+WITNESS_K3 = """class C0 {
+}
+class C1 {
+    C0 r1;
+}
+C0 o0 = new C0();
+C0 o1 = new C0();
+C1 o2 = new C1();
+C1 o3 = new C1();
+C1 v1;
+v1.r1 != o0;
+v1 == o2;
+"""
+
+
+def witness_work(exes):
+    """fixed witness of a recorded defect: a field that is itself an (existential) variable, read through a variable"""
+    part = common.Partial()
+    for variant in sorted(exes):
+        out = solverlib.run_probe(exes[variant], [WITNESS_K3])
+        part.case(common.fingerprint(["k3", variant]), True, {"program": WITNESS_K3, "variant": variant})
+        if out.status != "solved":
+            part.count("witness K3: outcome " + out.status)
+            continue
+        post = solverlib.Solution(out.post)
+        ids = {e["name"]: e["value"] for e in out.post["exprs"] if not isinstance(e["value"], dict)}
+        f = post.fields_of(ids["o2"])["r1"]["value"]
+        got = f["vals"] if isinstance(f, dict) and "vals" in f else [f]
+        part.count("witness K3: solutions inspected")
+        if got == [ids["o0"]]:
+            part.violation("existential-field-read-through-variable", "'v1.r1 != o0; v1 == o2;' is solved with o2.r1 = o0: the field r1 of the candidates is itself a variable "
+                           "and var_item::get treats those variables as values", {"program": WITNESS_K3, "variant": variant})
+    return part.dump()
+
+
 def run(tier):
     res = common.Result(PID, tier, "programs with 1-4 classes (single / multiple / diamond inheritance, real and object fields, field initialisers, constructors with init lists "
                         "and explicit super-constructor calls), enums with unions, instances and variables declared in interleaved order, ==/!= between variables, "
@@ -211,6 +246,7 @@ def run(tier):
     total = 3600 if tier == "quick" else 100000
     per = 20 if tier == "quick" else 50
     common.pmap(work, [(exes, s, per, PID) for s in range(0, total, per)], res)
+    res.merge(witness_work(exes))
     res.gate("variable domains compared", res.counters.get("variable domains compared", 0) > 200)
     res.gate("fields compared", res.counters.get("fields compared", 0) > 200)
     res.gate("multiple inheritance exercised", res.counters.get("obj: programs with multiple inheritance", 0) > 0)
